@@ -37,7 +37,7 @@ def tier_params(tier):
     return {"models": [({"CLASSES": 2, "SLOTS": 2, "MAXOPS": 8, "MAXFB": 2}, 6, True), ({"CLASSES": 3, "SLOTS": 2, "MAXOPS": 9, "MAXFB": 2}, 3, False),
                        ({"CLASSES": 2, "SLOTS": 3, "MAXOPS": 10, "MAXFB": 2}, 3, False)],
             "single": {"CLASSES": 1, "SLOTS": 4, "MAXOPS": 10, "MAXFB": 2},
-            "random": 600, "random_steps": 600, "tlc_timeout": 900}
+            "random": 300, "random_steps": 500, "tlc_timeout": 900}
 
 
 def enumerate_histories(model, timeout):
@@ -436,7 +436,7 @@ def run(tier):
     models.append({"constants": params["single"], "distinct_states": r.distinct, "transitions": r.generated, "depth": r.depth,
                    "unique_histories": len(hist), "used_for": "single Pool objects"})
     judge.run(single_requests(hist, params["single"], table))
-    judge.run(real_requests(table, params), chunk=200)
+    judge.run(real_requests(table, params), chunk=400)
 
     damaged = selftest(judge.candidates, params["tlc_timeout"])
     bonus = apalache_bonus() if tier == "thorough" else "thorough tier only"
